@@ -43,7 +43,14 @@ PoolFor(s, mint, solpool) == {pn \in DOMAIN PoolsOf(s) : s.pools[pn].mint = mint
 SETUP_KAMINO_PYTH == 6
 ReservesOf(s) == IF Has(s, "reserves") THEN s.reserves ELSE <<>>
 Shr12(x) == BFloorDiv(x, BPow2(12))
-ReserveTotalBits(r) == BSub(BSub(BSub(BAdd(BMul(r.avail, TWO48), Shr12(r.borrowed_sf)), Shr12(r.protocol_sf)), Shr12(r.referrer_sf)), Shr12(r.pending_sf))
+\* Solend-backed collateral (setup 11) works the same way on Solend's reserve: total = available + borrowed - fees, the two
+\* 10^18-scaled components converted to I80F48 the way decimal_to_i80f48 does (integer part, then the remainder's 48 bits)
+SETUP_SOLEND_PYTH == 11
+SolendWadBits(w) == BAdd(BMul(BFloorDiv(w, BPow10(18)), TWO48), BFloorDiv(BMul(BMod(w, BPow10(18)), TWO48), BPow10(18)))
+IsSolendReserve(r) == Has(r, "kind") /\ r.kind = "solend"
+ReserveTotalBits(r) ==
+  IF IsSolendReserve(r) THEN BSub(BAdd(BMul(r.avail, TWO48), SolendWadBits(r.borrowed_wads)), SolendWadBits(r.fees_wads))
+  ELSE BSub(BSub(BSub(BAdd(BMul(r.avail, TWO48), Shr12(r.borrowed_sf)), Shr12(r.protocol_sf)), Shr12(r.referrer_sf)), Shr12(r.pending_sf))
 TruncDiv(a, b) == IF BIsNeg(a) THEN BNeg(BFloorDiv(BNeg(a), b)) ELSE BFloorDiv(a, b)
 ReserveRatioBits(r) ==
   LET sc == BPow10(r.dec)
@@ -63,13 +70,13 @@ DriftAdj(raw, cum) == BFloorDiv(BMul(raw, cum), BPow10(10))
 RefPrice(s, e, bn, ptype) ==
   LET b == s.banks[bn] setup == b.cfg.oracle_setup now == s.clock.ts IN
   IF setup = SETUP_FIXED THEN [usable |-> "yes", known |-> TRUE, p |-> R(b.cfg.fixed_price), ci |-> RZero]
-  ELSE IF setup \notin {SETUP_PYTH, SETUP_SWB, SETUP_STAKED, SETUP_KAMINO_PYTH, SETUP_DRIFT_PYTH} THEN [usable |-> "maybe", known |-> FALSE, p |-> RZero, ci |-> RZero]
+  ELSE IF setup \notin {SETUP_PYTH, SETUP_SWB, SETUP_STAKED, SETUP_KAMINO_PYTH, SETUP_DRIFT_PYTH, SETUP_SOLEND_PYTH} THEN [usable |-> "maybe", known |-> FALSE, p |-> RZero, ci |-> RZero]
   ELSE IF setup = SETUP_DRIFT_PYTH /\ ~Has(MarketsOf(s), b.cfg.oracle_keys[2]) THEN [usable |-> "maybe", known |-> FALSE, p |-> RZero, ci |-> RZero]
-  ELSE IF setup = SETUP_KAMINO_PYTH /\ ~Has(ReservesOf(s), b.cfg.oracle_keys[2]) THEN [usable |-> "maybe", known |-> FALSE, p |-> RZero, ci |-> RZero]
+  ELSE IF setup \in {SETUP_KAMINO_PYTH, SETUP_SOLEND_PYTH} /\ ~Has(ReservesOf(s), b.cfg.oracle_keys[2]) THEN [usable |-> "maybe", known |-> FALSE, p |-> RZero, ci |-> RZero]
   ELSE
   LET key == b.cfg.oracle_keys[1] pres == PresentedOracle(e, bn, b)
       staked == setup = SETUP_STAKED
-      kam == setup = SETUP_KAMINO_PYTH
+      kam == setup \in {SETUP_KAMINO_PYTH, SETUP_SOLEND_PYTH}
       dri == setup = SETUP_DRIFT_PYTH
       pools == IF staked THEN PoolFor(s, b.cfg.oracle_keys[2], b.cfg.oracle_keys[3]) ELSE {}
       slotsOk == /\ staked => (PresentedSlot(e, bn, b, 2) = b.cfg.oracle_keys[2] /\ PresentedSlot(e, bn, b, 3) = b.cfg.oracle_keys[3])
@@ -85,14 +92,14 @@ RefPrice(s, e, bn, ptype) ==
       mkt == IF dri THEN s.markets[b.cfg.oracle_keys[2]] ELSE [ts |-> BZero, owner_ok |-> TRUE, cum |-> BPow10(10)]
       poolOk == /\ staked => (pool.state = "stake" /\ BIsPos(pool.supply) /\ BGe(pool.stake, LAMPORTS_PER_SOL))
                 \* the reserve must be the venue's account and refreshed in the current slot; a negative ratio is an arithmetic failure
-                /\ kam => (res.owner_ok /\ BGe(res.slot, s.clock.slot) /\ ~BIsNeg(ratio))
+                /\ kam => (res.owner_ok /\ BGe(res.slot, s.clock.slot) /\ ~BIsNeg(ratio) /\ (IsSolendReserve(res) <=> setup = SETUP_SOLEND_PYTH))
                 /\ dri => (mkt.owner_ok /\ BGe(mkt.ts, s.clock.ts))
       \* raw integer price scaled by the pool's exchange rate (truncating division, as the adapter does before anything else)
       Adj(raw) == IF staked /\ poolOk THEN BFloorDiv(BMul(raw, BSub(pool.stake, LAMPORTS_PER_SOL)), pool.supply)
                   ELSE IF kam /\ poolOk THEN KaminoAdj(raw, ratio)
                   ELSE IF dri /\ poolOk THEN DriftAdj(raw, mkt.cum) ELSE raw
       AdjC(raw) == IF kam /\ poolOk THEN KaminoAdj(raw, ratio) ELSE IF dri /\ poolOk THEN DriftAdj(raw, mkt.cum) ELSE raw
-      kindOk == (setup \in {SETUP_PYTH, SETUP_STAKED, SETUP_KAMINO_PYTH, SETUP_DRIFT_PYTH} /\ o.kind = "pyth") \/ (setup = SETUP_SWB /\ o.kind = "swb")
+      kindOk == (setup \in {SETUP_PYTH, SETUP_STAKED, SETUP_KAMINO_PYTH, SETUP_DRIFT_PYTH, SETUP_SOLEND_PYTH} /\ o.kind = "pyth") \/ (setup = SETUP_SWB /\ o.kind = "swb")
       authentic == kindOk /\ o.owner_ok /\ o.discr_ok /\ o.live /\ (o.kind = "pyth" => o.verif_ok) /\ poolOk
       age == BSub(now, o.ts)
       fresh == BLe(age, BOfInt(MaxAge(b)))
@@ -181,7 +188,7 @@ Hypo(s, a, bn, dl, da) ==
   IN [a EXCEPT !.bal[i] = [cur EXCEPT !.l = BAdd(@, dl), !.a = BSub(@, da)]]
 
 C04(pre, e, post, line) ==
-  (e.ev \in {"borrow", "withdraw", "kamino_withdraw", "drift_withdraw"} /\ Has(pre.accts, e.a.acct) /\ Has(pre.banks, e.a.bank)) =>
+  (e.ev \in {"borrow", "withdraw", "kamino_withdraw", "drift_withdraw", "solend_withdraw"} /\ Has(pre.accts, e.a.acct) /\ Has(pre.banks, e.a.bank)) =>
     LET an == e.a.acct bn == e.a.bank ap == pre.accts[an] b == pre.banks[bn] IN
     /\ (Ok(e) /\ ~Bit(ap.flags, ACC_FLASHLOAN) /\ ~Bit(ap.flags, ACC_RECEIVERSHIP)) =>
          LET a == post.accts[an] h == HealthRef(post, e, a, "Init", "fav") IN
@@ -373,7 +380,7 @@ C09(pre, e, post, line) ==
                          RLe(RAbs(RSub(R(q.cache.price_conf), pr.ci)), RMul(TINY, RAdd(ROne, RAdd(RAbs(pr.p), pr.ci)))), [bank |-> bn])
   \* an accepted borrow / withdrawal: a position whose price is unusable (stale, substituted, unauthentic, confidence beyond
   \* the maximum, venue reserve not refreshed) counted for nothing - the account is initially healthy without it
-  /\ (e.ev \in {"borrow", "withdraw", "kamino_withdraw", "drift_withdraw"} /\ Ok(e) /\ Has(e.a, "acct") /\ Has(post.accts, e.a.acct)) =>
+  /\ (e.ev \in {"borrow", "withdraw", "kamino_withdraw", "drift_withdraw", "solend_withdraw"} /\ Ok(e) /\ Has(e.a, "acct") /\ Has(post.accts, e.a.acct)) =>
        LET a == post.accts[e.a.acct]
            bad == {i \in ActiveSlots(a) : BGe(a.bal[i].a, FOne) /\ LET pr == RefPrice(post, e, a.bal[i].bank, "TW") IN pr.known /\ pr.usable = "no"}
            hasDebt == \E i \in ActiveSlots(a) : BGe(a.bal[i].l, FOne)
@@ -425,13 +432,13 @@ ConfigValid(b, g) ==
                       /\ ~BIsNeg(en.init) /\ BLe(en.init, en.maint)
                       /\ LeverageOk(R(en.init), lwi, g.emode_max_init) /\ LeverageOk(R(en.maint), lwm, g.emode_max_maint)
                 /\ \A i \in ents, j \in ents : (i # j) => b.emode.entries[i].tag # b.emode.entries[j].tag]
-ConfigOps == {"add_bank", "add_bank_kamino", "add_bank_drift", "configure_bank", "configure_interest", "configure_limits", "configure_emode", "clone_emode", "propagate_staked", "migrate_curve"}
+ConfigOps == {"add_bank", "add_bank_kamino", "add_bank_drift", "add_bank_solend", "configure_bank", "configure_interest", "configure_limits", "configure_emode", "clone_emode", "propagate_staked", "migrate_curve"}
 C13(pre, e, post, line) ==
   /\ (IsProgramEvent(e) /\ Ok(e)) =>
        \A bn \in DOMAIN post.banks :
          LET q == post.banks[bn] g == post.groups[q.group]
              changed == ~Has(pre.banks, bn) \/ pre.banks[bn].cfg # q.cfg \/ pre.banks[bn].emode # q.emode
-         IN (changed /\ q.cfg.asset_tag \in {0, 1, 2, 3, 4}) =>
+         IN (changed /\ q.cfg.asset_tag \in {0, 1, 2, 3, 4, 5}) =>
             LET v == ConfigValid(q, g) IN
             /\ Chk("C13", "weights_coherent", line, v.weights, [bank |-> bn, ev |-> e.ev])
             /\ Chk("C13", "isolated_has_zero_asset_weights", line, v.isolated, [bank |-> bn, ev |-> e.ev])
